@@ -294,6 +294,14 @@ UNITS.append(Unit(ghost=True, cross_key=_key,
                 and all(c[1] is None for c in out.value['calls']) and out.value['results'][0] == out.value['results'][1]
                 and out.value['results'][3] != out.value['results'][0] and out.value['sheet'] == ('My Sheet', 'My Sheet', 'My Sheet!B2'))],
     call=ctx_call(False), native_call=ctx_call(True)))
+UNITS.append(Unit(ghost=True, cross_key=_key,
+    id='C06/evaluator.EvaluatorContext/each_precedent_once_per_formula', target='xlcalculator.evaluator:EvaluatorContext.eval_cell', prop='C06', inputs=[],
+    cases=[Case('a formula evaluates each cell it mentions ONCE, however often it mentions it (so the work of reporting a failure through shared precedents stays polynomial in the chain length)',
+                lambda: True,
+                lambda out: out.kind == 'ret' and [c[0] for c in out.value['calls']] == ['S!A1', 'S!A2', 'S!A1']
+                and all(c[1] is None for c in out.value['calls']) and out.value['results'][0] == out.value['results'][1]
+                and out.value['results'][3] != out.value['results'][0] and out.value['sheet'] == ('My Sheet', 'My Sheet', 'My Sheet!B2'))],
+    call=ctx_call(False), native_call=ctx_call(True)))
 
 
 # ---- no process-lifetime memo on the evaluation path (C05 footprint) ------------------------------------------------------------
@@ -440,7 +448,13 @@ def setcell_call(native, how):
                       for kind, o, a, v in it.path.events[n0:] if kind == 'write']
             it.track_attrs = False
         target = Q_ADDR if how == 'absent' else K_ADDR
-        return dict(value=m.cells[target].value if target in m.cells else 'NO-CELL', other=other.value, K=cK.value, writes=writes, keys=sorted(m.cells))
+        # ... and what get_cell_value reads back, through the address and through the name
+        if native:
+            got = (m.get_cell_value(target), m.get_cell_value('rate'))
+        else:
+            got = (it.call(Mo.Model.get_cell_value, [m, target], {}), it.call(Mo.Model.get_cell_value, [m, 'rate'], {}))
+        return dict(value=m.cells[target].value if target in m.cells else 'NO-CELL', other=other.value, K=cK.value, writes=writes, keys=sorted(m.cells),
+                    got_by_address=got[0], got_by_name=got[1])
     if native:
         return lambda fn, *a: call(None, fn, *a)
     return call
@@ -460,10 +474,14 @@ def setcell_ens(how):
             return False
         if s['writes'] is not None and any(w[0] in ('other', 'model') for w in s['writes']):
             return False                                   # frame: no other cell, no table of the model is written
-        val = s['value']
-        if val is v1:
-            return True
-        return spec.eq(val, v1) if (is_sym(val) or is_sym(v1)) else (type(val) is type(v1) and val == v1)
+        def same(val, want):
+            if val is want:
+                return True
+            return spec.eq(val, want) if (is_sym(val) or is_sym(want)) else (type(val) is type(want) and val == want)
+        # get_cell_value returns the last value set: read through the address - and through the name, which stands for K1
+        # (K1 holds v1 after every variant but `absent`, which leaves K1 alone)
+        by_name_want = v0 if how == 'absent' else v1
+        return And(same(s['value'], v1), same(s['got_by_address'], v1), same(s['got_by_name'], by_name_want))
     return ens
 
 
@@ -472,7 +490,7 @@ for _prop in ('C04', 'C13'):
         UNITS.append(Unit(ghost=True, cross_key=lambda s: repr((s['value'], s['keys'])) if isinstance(s, dict) else repr(s),
             id=f'{_prop}/model.Model.set_cell_value[{_how}]', target='xlcalculator.model:Model.set_cell_value', prop=_prop,
             inputs=[('v0', CONSTS), ('v1', CONSTS)], fork='star',
-            cases=[Case('afterwards the cell AT the address (the address a name stands for) holds the value - also when the name keeps its own copy of the cell, as in an extracted or restored model; nothing else changes',
+            cases=[Case('afterwards the cell AT the address (the address a name stands for) holds the value and get_cell_value reads it back through the address and through the name - also when the name keeps its own copy of the cell, as in an extracted or restored model; nothing else changes',
                         lambda *a: True, setcell_ens(_how))],
             call=setcell_call(False, _how), native_call=setcell_call(True, _how), bounded_domain_cap=60))
 
